@@ -5,6 +5,8 @@ FCM = ('contracts.qualitative', None)
 TRANSFORM = ('contracts.transform', None)
 VIAB = ('contracts.viability', None)
 CONV = ('contracts.conversion', None)
+REG_Q = ('contracts.regions', ['QualitativeDiscretizer._prepare_data@marker_loop'])
+REG_C = ('contracts.regions', ['ChainedDiscretizer._prepare_data@unknown_values_loop', 'ChainedDiscretizer._prepare_data@marker_loop', 'ChainedDiscretizer.fit@merge_loop'])
 ENUM = ('contracts.base_carver', ['combinations_at_index', 'consecutive_combinations', 'consecutive_combinations@top', 'nan_combinations', 'order_apply_combination'])
 
 REGISTRY = {
@@ -39,8 +41,8 @@ REGISTRY = {
  'C07': dict(level='other', P=[TRANSFORM], R=['rtc.battery_C07'],
              explanation='PROVED: BaseDiscretizer.transform writes nothing reachable from self (frame obligation, given the assumed frames of _prepare_data / _transform_quantitative / _transform_qualitative), and its missing-value loop touches exactly the columns of features whose per-feature dropna flag is False. BOUNDED: fit_transform == fit;transform, row-wise purity (subset, permutation, three re-indexings), repeatability, fitted state unchanged by transform, index/columns '
                          'kept, non-feature columns untouched, caller data unmodified with copy=True.'),
- 'C08': dict(level='other', P=[GL_ALL, ('contracts.base_discretizers', None)], R=['rtc.battery_C08', 'rtc.c09_base'],
-             explanation='PROVED: every GroupedList operation preserves the ordered-partition invariant (so any values_orders entry built through them is well formed); the four _remove_feature methods remove the feature from every per-feature attribute and every casting list, leave all other entries unchanged and preserve the coherence invariant COH. BOUNDED: fit completes or '
+ 'C08': dict(level='other', P=[GL_ALL, ('contracts.base_discretizers', None), REG_Q, REG_C], R=['rtc.battery_C08', 'rtc.c09_base'],
+             explanation='PROVED: every GroupedList operation preserves the ordered-partition invariant (so any values_orders entry built through them is well formed); REGION contracts: the loops of QualitativeDiscretizer._prepare_data and ChainedDiscretizer._prepare_data / fit that append the missing-value marker, handle unknown values and merge along the hierarchy call append / group within their preconditions and leave partitions that lost no value (entry state assumed; defects D13, D28, D30 lived there); the four _remove_feature methods remove the feature from every per-feature attribute and every casting list, leave all other entries unchanged and preserve the coherence invariant COH. BOUNDED: fit completes or '
                          'raises AssertionError; afterwards all per-feature attributes have exactly the kept features as keys, orders are well formed and cover every training value, dropped '
                          'features pass through transform, summary/history do not raise.'),
  'C16': dict(level='other', P=[], R=['rtc.battery_C16'],
@@ -72,8 +74,8 @@ REGISTRY = {
              explanation='BOUNDED relational contracts only (a two-run property of the pandas pipeline; nothing is proved): for count-table frames with exact ties and for random frames, the kept '
                          'features and the row partition induced by transform are compared between the original sample and its re-encodings: row permutation / reversal, three index relabellings, '
                          'exact affine maps of the quantitative features, order-preserving renaming of the categories.'),
- 'C18': dict(level='other', P=[GL_ALL], R=['rtc.c18_chained'],
-             explanation='PROVED: the GroupedList operations the merge loop is made of (group, append, sort_by, get_group, values) meet their contracts. BOUNDED: ChainedDiscretizer on seeded small '
+ 'C18': dict(level='other', P=[GL_ALL, REG_C], R=['rtc.c18_chained'],
+             explanation='PROVED: the GroupedList operations the merge loop is made of (group, append, sort_by, get_group, values) meet their contracts; REGION contracts (a loop verified from an assumed entry state): the merge loop of ChainedDiscretizer.fit keeps every order a partition and loses no value whatever the pandas frequencies are (every value known to the hierarchy stays in values_orders), the unknown-values loop of _prepare_data raises AssertionError exactly when unknown_handling is raise and an unknown value exists and otherwise puts every unknown value in the group led by the missing-value marker, the marker loop adds the marker exactly where the column holds missing values -- each append / group call is shown to meet its precondition (the defects D13 and D28 lived there). BOUNDED: ChainedDiscretizer on seeded small '
                          'hierarchies with leaf frequencies placed around min_freq: known_values complete, every hierarchy value still present, a value keeps its own modality iff frequent, rare values merged '
                          'into an ancestor, rare intermediate groups merged further up, unknown values raise / are merged with the missing values, transform outputs the group leader.'),
  'C14': dict(level='other', P=[('contracts.measures', None)], R=['rtc.c14_selectors'],
